@@ -86,7 +86,8 @@ func SeedDigest(content []byte) []byte {
 // Share = digest(content) ++ keyed hash; the digest lets AggregateRandomSeed (which is not given the
 // content) produce the master signature over the same content.
 func Share(id primitives.MemberId, h primitives.BlockHeight, content []byte) []byte {
-	return append(append([]byte{}, SeedDigest(content)...), Sig("R", id, h, content)...)
+	d := SeedDigest(content)
+	return append(append([]byte{}, d...), Sig("R", id, h, d)...)
 }
 
 func MasterSeedSig(h primitives.BlockHeight, digest []byte) []byte {
@@ -132,7 +133,16 @@ func (k *KeyManager) AggregateRandomSeed(h primitives.BlockHeight, shares []*pro
 	if len(shares) == 0 || len(shares[0].Signature()) < 4 {
 		return nil
 	}
-	return MasterSeedSig(h, shares[0].Signature()[:4])
+	// like a threshold scheme: the aggregate only comes out right from shares that are their claimed owners' shares
+	// over one and the same content
+	d := shares[0].Signature()[:4]
+	for _, sh := range shares {
+		sig := sh.Signature()
+		if len(sig) < 4 || !bytes.Equal(sig[:4], d) || !bytes.Equal(sig[4:], Sig("R", sh.MemberId(), h, d)) {
+			return []byte("BAD-AGGREGATE")
+		}
+	}
+	return MasterSeedSig(h, d)
 }
 
 // ---------------------------------------------------------------- membership
